@@ -4,7 +4,7 @@
 (* spine it descends from and the class of the cell (property C18, and the *)
 (* basis of the measure rule, the category gate and the listings).         *)
 (* Cell classes (field k of a cell):                                       *)
-(*   hdr gcom fcom split join term        decided by the row importer      *)
+(*   hdr gcom fcom split join term add exch  decided by the row importer    *)
 (*   bar null nulli clef keysig timesig meter staff bbox   SHARED: read    *)
 (*                      identically under every spine type                 *)
 (*   note chord octx tandem visual err    kern-only classes                *)
@@ -20,7 +20,8 @@ HMens == <<42, 42, 109, 101, 110, 115>>
 KnownHeaders == {HKern, HText, HHarm, HMxhm, HRoot, HDyn, HDynam, HFing, HMens}   \* tokens.HEADERS: default spine_types
 KernLike == {HKern, HRoot}                    \* spine types whose cells are parsed as **kern tokens
 
-OpClasses == {"split", "join", "term"}
+OpClasses == {"split", "join", "term", "add"}     \* *^ *v *- *+ (the exchange operator *x is not supported: Unsupported)
+TwiceClasses == {"split", "add"}                   \* operators after which the path continues twice
 SharedClasses == {"bar", "null", "nulli", "clef", "keysig", "timesig", "meter", "staff", "bbox"}
 SigClasses == {"clef", "keysig", "timesig", "meter"}        \* cells that become SignatureToken objects
 
